@@ -97,6 +97,33 @@ func init() {
 		for lo := 0xDC00; lo < 0xE000; lo += step {
 			e.emit("rsb %s - 0", hs([]byte(fmt.Sprintf(`"\u%04x\u%04x"`, lo, 0xD800+lo%0x400))))
 		}
+		// a high surrogate followed by an almost-valid second escape: every position of the
+		// second escape replaced by a non-hex / wrong byte
+		for _, hi := range []int{0xD800, 0xD83D, 0xDBFF} {
+			good := []byte(fmt.Sprintf(`\u%04x\ude0a`, hi))
+			for pos := 6; pos < 12; pos++ {
+				for _, c := range []byte("gGzZ xX:@`/\\\x00\x7f\xff\"u-") {
+					b := append([]byte{}, good...)
+					b[pos] = c
+					e.emit("rsb %s - 0", hs(append(append([]byte{'"'}, b...), '"')))
+					e.emit("rsb %s %s 3", hs(append(append([]byte{'"', 'a'}, b...), 'z', '"')), hs([]byte("p")))
+					e.emit("usc %s -", hs(b))
+					e.emit("uuc %s -", hs(b))
+					e.emit("getu4 %s", hs(b[6:]))
+					e.emit("hobj %s x nil", hs([]byte(`{"`+string(b)+`":1}`)))
+				}
+			}
+		}
+		for pos := 2; pos < 6; pos++ {
+			for c := 0; c < 256; c++ {
+				b := []byte(`\u12aF`)
+				b[pos] = byte(c)
+				e.emit("getu4 %s", hs(b))
+				if c%3 == 0 {
+					e.emit("rsb %s - 0", hs(append(append([]byte{'"'}, b...), '"')))
+				}
+			}
+		}
 		// generated escape sequences, truncations, destinations with small spare capacity
 		docs := 6000
 		if thorough {
@@ -199,6 +226,24 @@ func init() {
 				}
 			}
 		}
+		// histories on one scratch buffer: earlier returned strings / stored targets must not change
+		hn := 400
+		if thorough {
+			hn = 10000
+		}
+		strs := []string{`"caf\u00e9 au lait"`, `"x\ty`, `"Zo\u00eb"`, `"K\u00f6ln"`, `"plain"`, `"line one\nline two, long enough to outgrow a small buffer"`, `"SECOND\tVALUE that is also long enough to need growth"`, `""`, `"\n"`, `null`, `"a\\b"`, `"bad\q"`, `"😀\ud83d\ude00"`}
+		for i := 0; i < hn; i++ {
+			k := 2 + r.intn(5)
+			var ops []string
+			for j := 0; j < k; j++ {
+				s := r.pick(strs)
+				if r.chance(1, 3) {
+					s = `"` + genEscapes(r) + `"`
+				}
+				ops = append(ops, r.pick([]string{"rs", "dec", "dec"})+":"+hs([]byte(s)))
+			}
+			e.emit("strhist %d %s", r.pickInt([]int{-1, 0, 0, 4, 8, 64}), strings.Join(ops, " "))
+		}
 		docs := 3000
 		if thorough {
 			docs = 80000
@@ -221,6 +266,19 @@ func init() {
 		}
 		deep := hs(nest("[", "]", 10001, "1"))
 		mid := hs(nest(`{"a":`, "}", 300, "[[[]]]"))
+		// one function leaves the shared stack long (the handler machines have no depth limit for
+		// declined values), then another function runs at its own depth limit with that buffer
+		veryDeepArr := hs(nest("[", "]", 20000, "1"))
+		veryDeepObj := hs([]byte(`{"k":` + string(nest("[", "]", 15000, "1")) + `}`))
+		limits := []string{hs(nest("[", "]", 10000, "1")), hs(nest("[", "]", 10001, "1")), hs(nest(`{"a":`, "}", 10001, "1")), hs(nest(`[{"a":`, "}]", 5001, "1"))}
+		for _, first := range []string{"harr:" + veryDeepArr + ":0", "hobj:" + veryDeepObj + ":0", "harr:" + veryDeepArr + ":0;0", "skip:" + limits[0]} {
+			for _, lim := range limits {
+				for _, op := range []string{"skip", "skipfast", "valid"} {
+					e.emit("hist nil %s %s:%s %s:%s", first, op, lim, op, hs([]byte("[[1],{\"a\":[2]}]")))
+				}
+				e.emit("hist - %s harr:%s:0 hobj:%s:0 harr:%s:x", first, lim, hs([]byte(`{"a":[1],"b":{"k":2},"c":3}`)), hs([]byte(`[[1],{"k":[2]},3]`)))
+			}
+		}
 		for i := 0; i < n; i++ {
 			k := 2 + r.intn(8)
 			var ops []string
